@@ -89,7 +89,11 @@ type Schema struct {
 	Types  []*Type  `json:"types"`
 	Tables []*Table `json:"tables"`
 	Notes  []string `json:"notes"`
+	// every package-level function with the signature of a discriminator look-up, recognised or not (for the harness)
+	LookupSigs []LookupSig `json:"lookup_sigs"`
 }
+
+type LookupSig struct{ Pkg, Name, KeyType string }
 
 var pkgs = []struct{ short, dir, imp string }{
 	{"bse", "bjse-trade-bin/messages", "github.com/xinchentechnote/fin-proto-go/bjse-trade-bin/messages"},
@@ -1268,6 +1272,20 @@ func (pi *pkgInfo) tables(sc *Schema, tyID func(pkg, name string) (int, bool)) {
 	type lk struct{ name, cache, kind, kt string }
 	var lks []lk
 	curConsts, curStrConsts = pi.consts, pi.strs
+	var sigNames []string
+	for name := range pi.funcs {
+		sigNames = append(sigNames, name)
+	}
+	sort.Strings(sigNames)
+	for _, name := range sigNames {
+		fd := pi.funcs[name]
+		if fd.Type.Params != nil && len(fd.Type.Params.List) == 1 && len(fd.Type.Params.List[0].Names) == 1 && fd.Type.Results != nil && len(fd.Type.Results.List) == 2 &&
+			typeStr(fd.Type.Results.List[0].Type) == "codec.BinaryCodec" && typeStr(fd.Type.Results.List[1].Type) == "error" {
+			if kt := typeStr(fd.Type.Params.List[0].Type); kt == "string" || (scalarWidth(kt) > 0 && !strings.HasPrefix(kt, "float")) {
+				sc.LookupSigs = append(sc.LookupSigs, LookupSig{pi.short, name, kt})
+			}
+		}
+	}
 	for name, fd := range pi.funcs {
 		if fd.Type.Params == nil || len(fd.Type.Params.List) != 1 || fd.Type.Results == nil || len(fd.Type.Results.List) != 2 {
 			continue
